@@ -126,6 +126,8 @@ def r21_typestate(ctx, sc: SimCtx):
                     and isinstance(st.value.func, ast.Attribute) and st.value.func.attr == 'pop_first'
                     and sc.is_evl(st.value.func.value, ci.name)):
                 continue
+            if any(isinstance(y, (ast.Yield, ast.YieldFrom)) for y in walk_shallow(fn)):
+                raise AnalysisError(f'R2.1: {ci.name}.{fn.name} pops events inside a generator; the typestate rule does not model generators')
             tgt = st.targets[0] if isinstance(st, ast.Assign) else st.target
             if not isinstance(tgt, ast.Name):
                 continue
